@@ -106,6 +106,24 @@ def gen_cases(ctx, corpus, quick):
                 cases.append((cc.w2x_line(cc.mutate(rng, c["bytes"]), **o), "grammar-mutated"))
     except ImportError:
         pass
+    # typed payloads: arbitrary OPAQUE / inline payloads (lengths 0..9, all bits set incl. reserved ones, zeros, BCD and
+    # random bytes) in every element / attribute the library decodes in a typed way (from the behavioural probe of the
+    # current tree), and attribute lists / PIs with valueless or reserved value items after an ordinary value
+    try:
+        from vlib import gen as _gen3, gen_hardwired as _gh
+        tj = _gen3.tables_json()
+        for b, forced in cc.typed_payload_docs(rng, tj, _gh.probe()["dec"], per_elem=(10 if quick else 60)):
+            o = opts()
+            if forced:
+                o["lang"] = forced
+            cases.append((cc.w2x_line(b, **o), "typed-payload"))
+        for b, forced in cc.attr_extension_docs(tj):
+            o = opts()
+            if forced:
+                o["lang"] = forced
+            cases.append((cc.w2x_line(b, **o), "attr-extension"))
+    except ImportError:
+        pass
     # SyncML shapes of the XML-generator development: CDATA sections (one-byte / empty / ']]>' payloads, several content
     # items, elements inside <Data>), <Type> rewrite, embedded DevInf / DM documents, binary-flagged elements
     try:
